@@ -99,6 +99,10 @@ pub fn scenario(r: &mut Report, p: &Params) {
         };
         let mut spec = if server { NodeSpec::server(ip, &bs) } else { NodeSpec::client(ip, &bs) };
         spec.public_ip = public_ip;
+        if p.boots == 3 && i > 0 {
+            // entries that do not resolve, listed before the live address
+            spec.bootstrap_names = vec!["no-such-router.invalid:6881".to_string(), "not an address".to_string()];
+        }
         if p.order == 3 && i == total - 1 && i > 0 {
             // late joiner: 20 virtual minutes after the others
             w.run_for(20 * MIN);
@@ -320,7 +324,7 @@ pub fn run(a: &Args) -> Report {
             continue;
         }
         let servers = *rng.pick(&[1usize, 2, 3, 4, 5, 7, 10, 14, 19, 20, 20]);
-        let p = Params { seed: rng.u64(), servers, clients: *rng.pick(&[0usize, 0, 1, 3, 6]), plan: rng.usize(5), order: rng.usize(4), boots: rng.usize(3) };
+        let p = Params { seed: rng.u64(), servers, clients: *rng.pick(&[0usize, 0, 1, 3, 6]), plan: rng.usize(5), order: rng.usize(4), boots: rng.usize(4) };
         super::guarded(&mut r, case_json(&p), |r| scenario(r, &p));
         r.count("join_scenarios");
         r.count(["join_plan/public-rekeying", "join_plan/private", "join_plan/mixed", "join_plan/public-secure-from-start", "join_plan/public-no-hairpin"][p.plan % 5]);
